@@ -134,14 +134,43 @@ func main() {
 			})
 		}
 		fmt.Println(n, "sites")
+	case "whywrites":
+		// rlcheck whywrites <function> : which callees make the function a writer of Cursor.pos (outside CheckAppend)
+		p, err := Load(*repo, *goos, "", nil)
+		if err != nil {
+			fmt.Fprintln(os.Stderr, err)
+			os.Exit(2)
+		}
+		ws := p.writersExcept("core.Cursor", "pos", "(*core.Cursor).CheckAppend")
+		f := p.Func(pos[0])
+		seen := map[*ssa.Function]bool{}
+		var walk func(f *ssa.Function, depth int)
+		walk = func(f *ssa.Function, depth int) {
+			if seen[f] || depth > 8 {
+				return
+			}
+			seen[f] = true
+			n := p.CG.Nodes[f]
+			if n == nil {
+				return
+			}
+			for _, e := range n.Out {
+				if ws[e.Callee.Func] && !freshReceiver(e.Site) {
+					fmt.Printf("%*s%s -> %s\n", depth*2, "", fnName(f), fnName(e.Callee.Func))
+					walk(e.Callee.Func, depth+1)
+				}
+			}
+		}
+		walk(f, 0)
 	case "zone":
 		p, err := Load(*repo, *goos, "", nil)
 		if err != nil {
 			fmt.Fprintln(os.Stderr, err)
 			os.Exit(2)
 		}
-		z := &zoneEngine{p: p, contracts: coreContracts(), fieldMinLen: map[string]int64{}}
-		nOK, nBad := 0, 0
+		z := &zoneEngine{p: p, contracts: coreContracts(), fieldMinLen: map[string]int64{}, useGetters: true}
+		nOK, nBad, nLow := 0, 0, 0
+		lowerOnly := os.Getenv("ZONE_LOWER") != ""
 		for _, f := range p.RepoFuncs {
 			if len(pos) > 0 && !strings.Contains(fnName(f), pos[0]) {
 				continue
@@ -149,15 +178,18 @@ func main() {
 			z.obls = nil
 			z.analyse(f)
 			for _, o := range z.obls {
-				if o.OK {
+				if o.OK || (lowerOnly && o.IsBound && o.LowerOK) {
 					nOK++
 				} else {
 					nBad++
+					if o.IsBound && !o.LowerOK {
+						nLow++
+					}
 					fmt.Printf("UNPROVED %s [%s] %s :: %s\n", fnName(f), p.IPos(o.In), o.In.String(), o.Detail)
 				}
 			}
 		}
-		fmt.Println(nOK, "proved,", nBad, "unproved")
+		fmt.Println(nOK, "proved,", nBad, "unproved,", nLow, "of them with the non-negativity part unproved")
 	case "explain":
 		if len(pos) != 1 {
 			usage()
